@@ -62,6 +62,7 @@ def run_frame(ctx, rules=("frame.affine",), want_cipher=False):
         fn = ep["fn"]
         key0 = gpath("wow_world_messages", fn["path"])
         fr = FrameReader(g, "wow_world_messages", fn, hs)
+        fr.op_len = 4 if ep["dir"] == "client" else 2
         try:
             paths = fr.run()
         except Exception as e:  # noqa
@@ -238,4 +239,94 @@ def run_frame_writers(ctx):
         if n <= 2:
             ctx.sample({"writer": fn["path"], "pieces": [(hex(lo), hex(hi), [e[0] for e in (s.events if s else [])]) for lo, hi, s, err in res][:8]})
     ctx.rule("frame.writers", n, floor=WRITER_FLOOR, note="default write_* methods evaluated over all body lengths the header can express (piecewise-affine domain)")
+    return n
+
+
+# ----------------------------------------------------------------------------------------------
+# hand-written header structs: byte placement (C02-D2(e), reader side) by abstract interpretation
+# ----------------------------------------------------------------------------------------------
+HEADER_STRUCTS = [
+    # fn, array length, expected size slots (little-endian, as header byte indices; ('m', i, mask) = masked), expected opcode slots
+    ("ServerHeader::from_array", 4, [1, 0, None, None], [2, 3]),
+    ("ServerHeader::from_large_array", 5, [2, 1, ("m", 0, 0x7F), None], [3, 4]),
+    ("ClientHeader::from_array", 6, [1, 0], [2, 3, 4, 5]),
+]
+
+
+def callers_mask_marker(F, path, got, exp):
+    """the only difference is the missing 0x7F mask and every caller already passes `x & 0x7F` as that byte"""
+    from ..minieval import MTok
+    diff = [(g, e) for g, e in zip(got, exp) if g != e]
+    if not diff or not all(isinstance(e, MTok) and g == e.tok for g, e in diff):
+        return False
+    idx = diff[0][1].tok.id
+    mask = diff[0][1].mask
+    sites = 0
+    for fn in F.all("fn"):
+        for x in H.walk(fn.get("hir")):
+            if H.tag(x) == "call" and H.call_path(x) == path:
+                sites += 1
+                a = H.strip(H.call_args(x)[0]) if H.call_args(x) else None
+                if H.tag(a) != "array" or idx >= len(a[1]):
+                    return False
+                e = H.strip(a[1][idx])
+                if not (H.tag(e) == "bin" and e[2] == "BitAnd" and (H.lit_int(e[5]) == mask or H.lit_int(e[4]) == mask)):
+                    return False
+    return sites > 0
+
+
+def run_header_structs(ctx):
+    from ..facts import facts
+    from ..minieval import Mini, MTok, Panic, Tok, Unsupported, Wide, to_wide
+    FB = {c: facts(c) for c in ("wow_world_messages", "wow_world_base")}
+    F = FB["wow_world_messages"]
+    n = 0
+    for name, ln, want_size, want_op in HEADER_STRUCTS:
+        path = "crate::util::functions::shared::" + name
+        fn = F.fn(path)
+        key = "wow_world_messages::" + path
+        if fn is None:
+            ctx.violate("frame.header-structs", f"{key}|anchor", f"{path} not found (anchor disappeared)")
+            continue
+        n += 1
+        toks = [Tok(i, "any") for i in range(ln)]
+        try:
+            res = Mini(FB, "wow_world_messages").call_fn(path, [toks])
+        except (Unsupported, Panic) as e:
+            ctx.violate("frame.header-structs", f"{key}|shape", f"{path}: shape not recognised — review ({e})", fn["file"], fn["line"])
+            continue
+        if not (isinstance(res, tuple) and res[0] == "struct" and set(res[2]) == {"size", "opcode"}):
+            ctx.violate("frame.header-structs", f"{key}|shape", f"{path}: does not build a header with size and opcode: {res!r}", fn["file"], fn["line"])
+            continue
+
+        def slot(w):
+            if w is None:
+                return 0
+            if isinstance(w, tuple):
+                return MTok(toks[w[1]], w[2])
+            return toks[w]
+
+        def describe(sl):
+            out = []
+            for x in sl:
+                if isinstance(x, Tok):
+                    out.append(f"b[{x.id}]")
+                elif isinstance(x, MTok):
+                    out.append(f"b[{x.tok.id}]&{x.mask:#x}")
+                else:
+                    out.append(str(x))
+            return "[" + ", ".join(out) + "] (least significant first)"
+
+        for field, want in (("size", want_size), ("opcode", want_op)):
+            got = to_wide(res[2][field], len(want)).slots
+            exp = [slot(w) for w in want]
+            if got != exp and field == "size" and callers_mask_marker(F, path, got, exp):
+                continue
+            if got != exp:
+                extra = ""
+                if field == "size" and any(isinstance(e, MTok) and g == e.tok for g, e in zip(got, exp)):
+                    extra = (": the 0x80 marker bit of the 3-byte size form is not removed, so every large message is announced 0x800000 bytes too long "
+                             "(the reader then waits for / allocates 8 MiB more than was sent)")
+                ctx.violate("frame.header-structs", f"{key}|{field}", f"{path}: {field} is built from {describe(got)}, the header format requires {describe(exp)}{extra}", fn["file"], fn["line"])
+    ctx.rule("frame.header-structs", n, floor=3, note="hand-written header parsers evaluated on abstract header bytes (size big-endian, 0x80 marker masked, opcode little-endian of the right width)")
     return n
